@@ -1,0 +1,34 @@
+//go:build verif
+
+package exit
+
+import (
+	"net"
+	"time"
+)
+
+// Verification-only accessors (policy family: C19). Add-only.
+
+// VerifIsAllowed calls isAllowed.
+func (h *Handler) VerifIsAllowed(ip net.IP) bool { return h.isAllowed(ip) }
+
+// VerifIsDomainAllowed calls isDomainAllowed.
+func (h *Handler) VerifIsDomainAllowed(domain string) bool { return h.isDomainAllowed(domain) }
+
+// VerifAllowedRoutes returns the String() form of every entry of the allow
+// list, in list order (duplicates included).
+func (h *Handler) VerifAllowedRoutes() []string {
+	h.routesMu.RLock()
+	defer h.routesMu.RUnlock()
+	out := make([]string, 0, len(h.cfg.AllowedRoutes))
+	for _, r := range h.cfg.AllowedRoutes {
+		out = append(out, r.String())
+	}
+	return out
+}
+
+// VerifPrimeDNS stores an answer in the resolver cache so that name
+// resolution is deterministic without a DNS server.
+func (h *Handler) VerifPrimeDNS(domain string, ip net.IP) {
+	h.resolver.setCache(domain, ip, time.Hour)
+}
